@@ -17,13 +17,15 @@ COQ_LANG = {"py": "Py", "ts": "Ts", "js": "Ts", "rs": "Rs"}
 BASE = {"Dec": 10, "Hex": 16, "Oct": 8, "Bin": 2, "LegacyOct": 8}
 PREFIX = {"Dec": "", "Hex": "0x", "Oct": "0o", "Bin": "0b", "LegacyOct": "0"}
 
-MULTI = {"Arg", "Elts", "UpperTuple", "TsEnum", "DictKeys", "Range"}
+MULTI = {"Arg", "Elts", "UpperTuple", "TsEnum", "DictKeys", "Range", "Decorator", "Nested", "Macro"}
 CTXS = {
     "py": ["Assign", "Arg", "Return", "Default", "Elts", "Compare", "Binop", "Mul", "Neg", "Upper", "UpperNeg", "UpperAnn",
-           "UpperTuple", "Range", "Enumerate", "StrRepeatL", "StrRepeatR", "DictKeys"],
+           "UpperTuple", "Range", "Enumerate", "StrRepeatL", "StrRepeatR", "DictKeys",
+           "Interp", "Decorator", "Nested", "Match", "Kwarg", "Index", "Lambda"],
     "ts": ["Assign", "Arg", "Return", "Default", "Elts", "Compare", "Binop", "Mul", "Neg", "Upper", "UpperNeg", "UpperAnn",
-           "UpperTuple", "TsEnum"],
-    "rs": ["Assign", "Arg", "Return", "Elts", "Compare", "Binop", "Mul", "Neg", "Upper", "UpperNeg", "UpperTuple", "RsStatic"],
+           "UpperTuple", "TsEnum", "Interp", "Nested", "Match", "Index", "Lambda"],
+    "rs": ["Assign", "Arg", "Return", "Elts", "Compare", "Binop", "Mul", "Neg", "Upper", "UpperNeg", "UpperTuple", "RsStatic",
+           "Macro", "Nested", "Match", "Index", "Lambda"],
 }
 JS_EXCLUDED = {"UpperAnn", "TsEnum"}
 ITEM_CTXS = {"Upper", "UpperNeg", "UpperTuple", "RsStatic"}          # Rust items: allowed at module level
@@ -97,7 +99,8 @@ def norm(m: int, e: int):
 
 
 # ------------------------------------------------------------------ rendering
-def _stmt(lang: str, site, k: int) -> str:
+def _stmt(lang: str, site, k: int):
+    """the statement of a site: one line, or (lines, index of the line holding the literals)"""
     c, nm = site["ctx"], site.get("name") or "v"
     ls = [lit_text(lang, l) for l in site["lits"]]
     one, many = ls[0], ", ".join(ls)
@@ -111,6 +114,9 @@ def _stmt(lang: str, site, k: int) -> str:
             "Enumerate": f"for i, w in enumerate(xs, {one}): pass",
             "StrRepeatL": f's{k} = "-" * {one}', "StrRepeatR": f's{k} = {one} * "-"',
             "DictKeys": f"{nm} = {{" + ", ".join(f'{t}: "k{j}"' for j, t in enumerate(ls)) + "}",
+            "Interp": f"{nm} = f'v{{{one}}}'", "Decorator": ([f"@{nm}({many})", f"def g{k}(): pass"], 0),
+            "Nested": f"{nm} = [[{many}]]", "Match": (["match x:", f"    case {one}: pass"], 1),
+            "Kwarg": f"{nm}(key={one})", "Index": f"{nm} = x[{one}]", "Lambda": f"{nm} = lambda y: y + {one}",
         }[c]
     if lang in ("ts", "js"):
         ann = ": number" if lang == "ts" else ""
@@ -121,6 +127,9 @@ def _stmt(lang: str, site, k: int) -> str:
             "Upper": f"const {nm} = {one};", "UpperNeg": f"const {nm} = -{one};", "UpperAnn": f"const {nm}{ann} = {one};",
             "UpperTuple": f"const {nm} = [{many}];",
             "TsEnum": f"enum E{k} {{ " + ", ".join(f"M{j} = {t}" for j, t in enumerate(ls)) + " }",
+            "Interp": f"let {nm} = `v${{{one}}}`;", "Nested": f"let {nm} = [[{many}]];",
+            "Match": f"switch (x) {{ case {one}: break; }}", "Index": f"let {nm} = x[{one}];",
+            "Lambda": f"let {nm} = (y) => y + {one};",
         }[c]
     return {
         "Assign": f"let {nm} = {one};", "Arg": f"{nm}({many});", "Return": f"return {one};",
@@ -128,6 +137,8 @@ def _stmt(lang: str, site, k: int) -> str:
         "Binop": f"let {nm} = x + {one};", "Mul": f"let {nm} = x * {one};", "Neg": f"let {nm} = -{one};",
         "Upper": f"const {nm}: i64 = {one};", "UpperNeg": f"const {nm}: i64 = -{one};",
         "UpperTuple": f"const {nm}: &[i64] = &[{many}];", "RsStatic": f"static {nm}: i64 = {one};",
+        "Macro": f"{nm}!({many});", "Nested": f"let {nm} = [[{many}]];", "Match": f"match x {{ {one} => {{}}, _ => {{}} }}",
+        "Index": f"let {nm} = x[{one}];", "Lambda": f"let {nm} = |y| y + {one};",
     }[c]
 
 
@@ -144,8 +155,11 @@ def render(f, top_offset: int = 0) -> str:
 
     def sites(ind: int, sc, need_body: bool):
         for s in sc["sites"]:
-            s["line"] = len(out) + 1
-            emit(ind, _stmt(lang, s, len(out) + 1))
+            st = _stmt(lang, s, len(out) + 1)
+            lines, at = st if isinstance(st, tuple) else ([st], 0)
+            s["line"] = len(out) + 1 + at
+            for ln in lines:
+                emit(ind, ln)
         if need_body and not sc["sites"] and lang == "py":
             emit(ind, "pass")
 
